@@ -285,6 +285,37 @@ pub fn drive(args: &HashMap<String, String>) {
                 }
             }
         }
+        // operators that hand back byte strings which are not the minimal spelling of a number (concat, substr, logical
+        // operators on such inputs): 0xff80, 0xffff, 0x0000, 0x007f, 0x00ff .. must come back as they are, directly and
+        // through strlen / = / i / sha256 / a second concat
+        {
+            let a = |b: u8| V::A(vec![b]);
+            let q = |x: V| V::cons(V::A(vec![1]), x);
+            let parts: Vec<(Vec<u8>, Vec<u8>)> = vec![(vec![0xff], vec![0x80]), (vec![0xff], vec![0xff]), (vec![0xff, 0xff], vec![0x80, 0x01]), (vec![0x00], vec![0x00]), (vec![0x00], vec![0x7f]),
+                (vec![0x00], vec![0xff]), (vec![0x00, 0x00], vec![0x01]), (vec![0xff], vec![0x7f]), (vec![0x00], vec![0x80]), (vec![], vec![0x00])];
+            for (x, y) in parts {
+                let cat = V::list(&[a(14), q(V::A(x.clone())), q(V::A(y.clone()))]);
+                let mut whole = x.clone();
+                whole.extend(y.clone());
+                whole.push(0x05);
+                let sub = V::list(&[a(12), q(V::A(whole)), q(V::nil()), q(V::int((x.len() + y.len()) as i64))]);
+                for made in [cat, sub] {
+                    let uses = vec![
+                        made.clone(),
+                        V::list(&[a(13), made.clone()]),
+                        V::list(&[a(9), made.clone(), q(V::A([x.clone(), y.clone()].concat()))]),
+                        V::list(&[a(3), made.clone(), q(V::int(7)), q(V::int(8))]),
+                        V::list(&[a(11), made.clone()]),
+                        V::list(&[a(14), made.clone(), q(V::A(vec![0x01]))]),
+                        V::list(&[a(4), made.clone(), made.clone()]),
+                        V::list(&[a(10), made.clone(), q(V::A(vec![0x80]))]),
+                    ];
+                    for prog in uses {
+                        cases.push(json!({"prog": prog.to_json(), "env": V::nil().to_json()}));
+                    }
+                }
+            }
+        }
         // operator-in-parentheses forms ((X) A B): X is applied to the operands *as written*.  Operands that read as
         // paths, quotes, applies must survive the optimiser untouched, at the top, inside a cons and inside the quoted
         // body of an apply whose argument expression is not the whole environment
